@@ -286,6 +286,18 @@ def fresh_dir(prefix="p_"):
     return tempfile.mkdtemp(prefix=prefix, dir=worker_dir())
 
 
+def run_child(cmd, env, timeout=1200, cwd=None):
+    """a child interpreter with a watchdog: -> (output text, timed out?)"""
+    import subprocess
+
+    try:
+        p = subprocess.run(cmd, env=env, cwd=cwd, stdout=subprocess.PIPE, stderr=subprocess.STDOUT, text=True, timeout=timeout)
+        return p.stdout, False
+    except subprocess.TimeoutExpired as e:
+        out = e.stdout.decode(errors="replace") if isinstance(e.stdout, bytes) else (e.stdout or "")
+        return out + f"\n[the child interpreter did not finish within {timeout} s and was killed]", True
+
+
 def pmap(func, items, base, procs=None, chunksize=1):
     """ordered parallel map over worker processes (fork), results as a list"""
     import multiprocessing as mp
